@@ -185,6 +185,31 @@ fn recycled_family() -> Vec<Program> {
     out
 }
 
+/// A value of `len` bytes whose content file (under `algo`) lives in the same
+/// `content-v2/<algo>/<aa>/<bb>` directory as the content file of `of`. Memoised.
+pub fn content_dir_neighbour(algo: crate::blob::Algo, of: &crate::blob::Blob, len: usize) -> crate::blob::Blob {
+    use crate::blob::{digest_raw, Blob};
+    use std::sync::{Mutex, OnceLock};
+    static MEMO: OnceLock<Mutex<std::collections::HashMap<(String, usize, u64, usize), u64>>> = OnceLock::new();
+    let memo = MEMO.get_or_init(Default::default);
+    let id = (format!("{algo:?}/{:?}", of.fill), of.len, of.salt, len);
+    if let Some(s) = memo.lock().unwrap().get(&id) {
+        return Blob::new(len, *s);
+    }
+    let d0 = digest_raw(algo, &of.bytes());
+    let mut found = 9_000_000u64;
+    for salt in 1_000_000u64..4_000_000 {
+        let b = Blob::new(len, salt);
+        let d = digest_raw(algo, &b.bytes());
+        if d[0] == d0[0] && d[1] == d0[1] && b.bytes() != of.bytes() {
+            found = salt;
+            break;
+        }
+    }
+    memo.lock().unwrap().insert(id, found);
+    Blob::new(len, found)
+}
+
 /// Values whose content files are directory neighbours: b0/b1 share the first digest byte
 /// (same `<aa>` directory, different `<bb>`), b0/b2 share the first two (same `<aa>/<bb>`).
 pub fn neighbours(algo: crate::blob::Algo) -> Vec<crate::blob::Blob> {
